@@ -2,6 +2,7 @@
 import WntrModel.Model.MExpr
 import WntrModel.Lemmas.MetricsSum
 import Mathlib.Tactic.Ring
+import Mathlib.Tactic.NormNum
 
 namespace Wntr.Metrics
 
@@ -53,9 +54,17 @@ theorem evalO_eq_some {env : Env} {row : Row} {e : MExpr} {x : Rat} (h1 : ok env
   simp [evalO, h1, h2]
 
 open Lean.Parser.Tactic in
-/-- unfold the evaluator on a generated term and the documented formula, then split the remaining
-zero-denominator / `raise` case distinctions -/
+/-- unfold the evaluator on a generated term and the documented formula (sums distributed over `+`, `-`, unary minus),
+split the remaining zero-denominator / `raise` case distinctions and close what is left by ring normalisation -/
 macro "mexpr_tie" "[" ts:simpLemma,* "]" : tactic =>
-  `(tactic| (simp [Bool.cond_eq_ite, evalO, ok, eval, evalC, Function.comp_def, divz, $ts,*] <;>
-      (try split_ifs) <;> (try simp_all)))
+  `(tactic| (simp [Bool.cond_eq_ite, evalO, ok, eval, evalC, Function.comp_def, divz, lsum_map_sub, lsum_map_add,
+        lsum_map_neg, $ts,*] <;>
+      (try split_ifs) <;>
+      (try first
+        | done
+        | (simp_all; done)
+        | (congr 1; ring)
+        | ring
+        | (norm_num; done)
+        | (exfalso; ring_nf at *; simp_all; done))))
 end Wntr.Metrics
